@@ -343,6 +343,8 @@ func runC13(c *core.Ctx) {
 	c06SubSecond(c, [][]string{{"csv", "log"}})
 	// an export that was interrupted is not a complete export: it never ends with status 0
 	interruptedRuns(c, map[string]string{"csv log": "log", "csv database": "book", "csv database-resolved": "book"})
+	// reports produced side by side in goroutines of one process, the program built with the race detector
+	parallelReports(c, c.N(40, 500), nestedCsvShape)
 	jobs, deaths := pool.Stats()
 	c.Count("l2_jobs", jobs)
 	c.Count("l2_process_deaths", deaths)
